@@ -22,10 +22,9 @@ w.after('pub fn solve < F, S >', '''
             r is Ok && (r->Ok_0).status is Success && solout is Some ==> R(final(tr).last_x) == R(xend),   // [C03] span.success_lands_on_xend
             r is Ok ==> ((r->Ok_0).status is UserInterrupt <==> final(tr).stopped),   // [C03 C10] status.interrupt
 ''' % k)
-w.after('{ //~135' if unit == 'dp5_R' else 'PLACEHOLDER', '''
-        let ghost so_some = solout is Some;
-        proof { if vac(1) { assert(false); } }   // [vacuity] vac.solve_entry
-''')
+i = w.find('pub fn solve < F, S >')
+j = next(k for k in range(i, len(w.L)) if w.L[k].strip().startswith('{ //~'))
+w.L[j + 1:j + 1] = ['        let ghost so_some = solout is Some;', '        proof { if vac(1) { assert(false); } }   // [vacuity] vac.solve_entry']
 
 INV = '''
             invariant_except_break
